@@ -228,16 +228,21 @@ func VerifC10Headers() {
 func VerifC10FailClosed() {
 	lb, cfg := verifLB()
 	defer lb.Stop()
-	bad := []string{"10.0.0.0/33", "not-a-cidr", "10.0.0.256"}[verifrt.Choice("malformedEntry", 3)]
-	if verifrt.Bool("malformedInDenyList") {
+	bad := []string{"10.0.0.0/33", "not-a-cidr", "10.0.0.256", "", "  ", "10.0.0.0/8/8"}[verifrt.Choice("malformedEntry", 6)]
+	switch verifrt.Choice("placement", 4) {
+	case 0: // next to a well-formed allow entry
+		cfg.AdminAPI.IPAllowList = []string{"10.0.0.0/8", bad}
+	case 1: // in the deny list
 		cfg.AdminAPI.IPAllowList = []string{"10.0.0.0/8"}
 		cfg.AdminAPI.IPDenyList = []string{bad}
-	} else {
-		cfg.AdminAPI.IPAllowList = []string{"10.0.0.0/8", bad}
+	case 2: // the allow list consists of the malformed entry only
+		cfg.AdminAPI.IPAllowList = []string{bad}
+	case 3: // the deny list consists of the malformed entry only (the operator meant to deny someone)
+		cfg.AdminAPI.IPDenyList = []string{bad}
 	}
 	h := NewMux(lb, cfg, lb.GetMetricsCollector())
 	r := &http.Request{Method: "GET", URL: &url.URL{Path: "/v1/backends"}, Header: http.Header{}, RemoteAddr: "203.0.113.9:999", Body: http.NoBody}
 	rec := &verifRecorder{hdr: http.Header{}}
 	h.ServeHTTP(rec, r)
-	verifrt.Assert(rec.status != http.StatusOK, "with a malformed list entry a peer that the well-formed entries refuse is still refused (no unfiltered API)")
+	verifrt.Assert(rec.status != http.StatusOK, "a configured IP list with a malformed entry never results in an unfiltered API (the peer is refused)")
 }
